@@ -100,3 +100,84 @@ func (file *FileCache[M]) janitorOf(mem *MemoryCache[M]) *cacheJanitor[M] {
 	}
 	return file.janitor
 }
+
+// HarnessShutdownUnsubscribes: "a component that has been shut down is not notified of any
+// later change".  Two caches (any backends) share one configuration.  The first is shut down
+// - with its context live or already cancelled, its janitor loop scheduled (so that it has
+// seen the cancellation and left) or not - and then every setting changes: no notification is
+// started for the shut-down cache (its limit, budget and janitor stay as they were), while the
+// second cache still follows every change.
+func HarnessShutdownUnsubscribes() {
+	resetMetrics()
+	vSetSysMem(1 << 40)
+	cfg := newCfg(1 << 30)
+	ctxA := context.Background()
+	cancelled := symChoice(2) == 1
+	if cancelled {
+		ctxA = vCancelledCtx()
+		vReach("context-cancelled-first")
+	}
+	var memA, memB *MemoryCache[vmeta]
+	var fileA, fileB *FileCache[vmeta]
+	if symChoice(2) == 0 {
+		memA = NewMemoryCache[vmeta](cfg, 50, 1<<30, time.Hour, 2, ctxA)
+	} else {
+		fileA = NewFileCache[vmeta](cfg, "var/vcacheA", 1<<30, time.Hour, 2, ctxA)
+	}
+	if symChoice(2) == 1 {
+		vRunPending() // A's janitor loop runs: it leaves at once if the context is cancelled, else waits
+		vReach("janitor-scheduled-before-shutdown")
+	}
+	if symChoice(2) == 0 {
+		memB = NewMemoryCache[vmeta](cfg, 50, 1<<30, time.Hour, 2, context.Background())
+	} else {
+		fileB = NewFileCache[vmeta](cfg, "var/vcacheB", 1<<30, time.Hour, 2, context.Background())
+	}
+	// shut A down
+	if memA != nil {
+		memA.Destroy()
+	} else {
+		fileA.Destroy()
+	}
+	vRunPending() // A's loop (if still there) sees the stop; B's loop starts and waits
+	jA := fileA.janitorOf(memA)
+	jB := fileB.janitorOf(memB)
+	bListeners := 2 // limit + janitor interval
+	if memB != nil {
+		bListeners = 3 // + memory budget
+	}
+	_ = bListeners
+	// every setting changes
+	before := vPendingCount()
+	cfg.Cache.MaxCacheSize.Stage(bytesizeOf(7 << 20))
+	cfg.Cache.MaxCacheSize.CommitStaged()
+	vAssert(vPendingCount()-before == 1, "c19.shut-down-component-notified") // B's limit listener only
+	before = vPendingCount()
+	cfg.Cache.CleanupInterval.Stage(duration.Duration(7 * time.Minute))
+	cfg.Cache.CleanupInterval.CommitStaged()
+	vAssert(vPendingCount()-before == 1, "c19.shut-down-component-notified") // B's janitor only
+	before = vPendingCount()
+	cfg.Cache.Memory.MemoryBudgetPercent.Stage(7)
+	cfg.Cache.Memory.MemoryBudgetPercent.CommitStaged()
+	want := 0
+	if memB != nil {
+		want = 1
+	}
+	vAssert(vPendingCount()-before == want, "c19.shut-down-component-notified")
+	vRunPending()
+	vReach("changed-after-shutdown")
+	// A is untouched ...
+	if memA != nil {
+		vAssert(memA.maxCacheSize.Get() == 1<<30 && memA.memoryCap == (1<<40)*50/100, "c19.shut-down-component-notified")
+	} else {
+		vAssert(fileA.maxCacheSize.Get() == 1<<30, "c19.shut-down-component-notified")
+	}
+	vAssert(jA.interval == time.Hour && len(jA.intervalChanged) == 0, "c19.shut-down-component-notified")
+	// ... B follows
+	if memB != nil {
+		vAssert(memB.maxCacheSize.Get() == 7<<20 && memB.memoryCap == (1<<40)*7/100, "c19.live-listener-not-notified")
+	} else {
+		vAssert(fileB.maxCacheSize.Get() == 7<<20, "c19.live-listener-not-notified")
+	}
+	vAssert(jB.interval == 7*time.Minute, "c19.live-listener-not-notified")
+}
